@@ -677,11 +677,313 @@ def targeted(rng) -> str:
                        'f(a not, b)\n', 'x = [a not]\n', 'a not\nin b\n', 'a = b not # c\n', 'if a not\n  b = 1\nendif\n'])
 
 
+# ------------------------------------------------------------------ slot-based grammar generator
+#
+# The grammar is a table mirroring the production list of the parser (one entry per `Parser` method that is
+# a production; `grammar_table_check` fails the run when the parser grows a production the table lacks).
+# A derivation yields a flat token list with boundary markers; EVERY boundary between two tokens is a trivia
+# slot filled from the full trivia alphabet by one generic renderer, so a new production gets its slots for
+# free.  Markers: NL = the grammar needs an end of line here; BT = boundary in front of a block terminator /
+# `else` / `elif` (newline conventional, not required); any other boundary = plain slot.
+
+NL, BT = '<NL>', '<BT>'
+TRIVIA_INLINE = ['', '', ' ', ' ', ' ', '  ', '\t', ' \\\n', '\\\n  ', ' \\ # c\n ', ' \\\n\t', '   ']
+TRIVIA_NL = ['\n', '\n', '\n', ' \n', '\n\n', ' # c\n', '\n  ', '  # é\n\n', '\t\n    ', ' \\\n\n']
+SLOT_IDS = ['a', 'b', 'x_1', 'foo', 'notx', 'inx', 'iff', 'endifx', 'f']
+SLOT_NUMS = ['0', '1', '42', '0x1F', '0b1', '0o7']
+SLOT_STRS = ["'s'", "''", "'a b'", "'\\n'", "f'@x@'", "'" * 3 + 'm' + "'" * 3, "'" * 3 + 'a\nb' + "'" * 3,
+             "f" + "'" * 3 + '\n' + "'" * 3, "'#'", "'\\''"]
+
+GRAMMAR: T.Dict[str, T.List[T.List[str]]] = {
+    # blocks
+    'codeblock': [['line'], ['line', NL, 'codeblock'], ['line', NL, 'codeblock']],
+    'line': [[], ['statement'], ['statement'], ['statement'], ['ifblock'], ['foreachblock'], ['ifblock'],
+             ['foreachblock'], ['`continue'], ['`break']],
+    'ifblock': [['`if', 'statement', NL, 'codeblock', BT, 'elseifblock', 'elseblock', '`endif']],
+    'elseifblock': [[], [], ['`elif', 'statement', NL, 'codeblock', BT, 'elseifblock']],
+    'elseblock': [[], ['`else', NL, 'codeblock', BT]],
+    'foreachblock': [['`foreach', 'ID', '`:', 'statement', NL, 'codeblock', BT, '`endforeach'],
+                     ['`foreach', 'ID', '`,', 'ID', '`:', 'statement', NL, 'codeblock', BT, '`endforeach']],
+    # expressions
+    'statement': [['e1']],
+    'e1': [['e2'], ['e2'], ['e2', '`=', 'e1'], ['e2', '`+=', 'e1'], ['e2', '`?', 'e1', '`:', 'e1']],
+    'e2': [['e3'], ['e3'], ['e3', '`or', 'e2']],
+    'e3': [['e4'], ['e4'], ['e4', '`and', 'e3']],
+    'e4': [['e5'], ['e5'], ['e5', 'CMP', 'e5'], ['e5', '`not', '`in', 'e5']],
+    'e5': [['e6'], ['e6'], ['e6', 'ADD', 'e5']],
+    'e6': [['e7'], ['e7'], ['e7', 'MUL', 'e6']],
+    'e7': [['e8'], ['e8'], ['e8'], ['`not', 'e8'], ['`-', 'e8']],
+    'e8': [['e9'], ['e9'], ['ID', '`(', 'args', '`)'], ['e8', '`.', 'method_call'], ['e8', '`[', 'index_call']],
+    'method_call': [['ID', '`(', 'args', '`)']],
+    'index_call': [['statement', '`]']],
+    'e9': [['e10'], ['e10'], ['`(', 'statement', '`)'], ['`[', 'args', '`]'], ['`{', 'key_values', '`}']],
+    'e10': [['ID'], ['ID'], ['NUM'], ['STR'], ['`true'], ['`false']],
+    'args': [[], ['statement'], ['statement', '`,', 'args'], ['ID', '`:', 'statement'],
+             ['ID', '`:', 'statement', '`,', 'args'], ['statement', '`,']],
+    'key_values': [[], ['statement', '`:', 'statement'], ['statement', '`:', 'statement', '`,', 'key_values']],
+}
+PRODUCTION_METHODS = re.compile(r'^(e\d+|statement|args|key_values|method_call|index_call|foreachblock|ifblock|'
+                                r'elseifblock|elseblock|testcaseblock|line|codeblock)$')
+
+
+def grammar_table_check(mparser) -> T.List[str]:
+    """productions of the real parser that the grammar table does not know"""
+    have = set(GRAMMAR) | {'testcaseblock'}
+    return sorted(m for m in vars(mparser.Parser) if PRODUCTION_METHODS.match(m) and m not in have)
+
+
+def derive(rng, sym: str, depth: int, out: T.List[str]) -> None:
+    if sym in (NL, BT):
+        out.append(sym)
+    elif sym.startswith('`'):
+        out.append(sym[1:])
+    elif sym == 'ID':
+        out.append(rng.choice(SLOT_IDS))
+    elif sym == 'NUM':
+        out.append(rng.choice(SLOT_NUMS))
+    elif sym == 'STR':
+        out.append(rng.choice(SLOT_STRS))
+    elif sym == 'CMP':
+        out.append(rng.choice(['==', '!=', '<', '<=', '>', '>=', 'in']))
+    elif sym == 'ADD':
+        out.append(rng.choice(['+', '-']))
+    elif sym == 'MUL':
+        out.append(rng.choice(['*', '/', '%']))
+    else:
+        alts = GRAMMAR[sym]
+        alt = min(alts, key=len) if depth <= 0 else rng.choice(alts)
+        for x in alt:
+            derive(rng, x, depth - 1, out)
+
+
+def _wordish(ch: str) -> bool:
+    return ch.isalnum() or ch == '_'
+
+
+_GLUE = {'==', '+=', '!=', '<=', '>=', "''"}
+
+
+def render_slots(rng, toks: T.List[str], hostile: float) -> str:
+    """fill every token boundary with trivia from the full alphabet"""
+    out = ''
+    depth = 0
+    pending: T.Optional[str] = None      # marker seen since the last token
+    first = True
+    for t in toks:
+        if t in (NL, BT):
+            pending = NL if (pending == NL or t == NL) else BT
+            continue
+        if first:
+            tr = rng.choice(['', '', '', ' ', '\n', '# c\n', '  \n\n'])
+        elif pending == NL:
+            tr = rng.choice(TRIVIA_INLINE) + rng.choice(TRIVIA_NL) if rng.random() < 0.3 else rng.choice(TRIVIA_NL)
+        elif pending == BT:
+            tr = rng.choice(TRIVIA_NL) if rng.random() < 0.5 else rng.choice(TRIVIA_INLINE)
+        elif depth > 0:
+            tr = rng.choice(TRIVIA_NL) if rng.random() < 0.25 else rng.choice(TRIVIA_INLINE)
+        else:
+            tr = rng.choice(TRIVIA_NL) if rng.random() < hostile * 0.2 else rng.choice(TRIVIA_INLINE)
+        if tr == '' and out and ((_wordish(out[-1]) and _wordish(t[0])) or (out[-1] + t[0]) in _GLUE or
+                                 (out[-1] == "'" and t[0] in "f'")) and rng.random() >= hostile * 0.3:
+            tr = ' '
+        out += tr + t
+        pending = None
+        first = False
+        if t in ('(', '[', '{'):
+            depth += 1
+        elif t in (')', ']', '}'):
+            depth = max(0, depth - 1)
+    # end of file: with or without a final newline / trailing trivia
+    out += rng.choice(['', '', '\n', '\n', ' ', ' # end', '\n\n', ' \\\n', '\t\n'])
+    return out
+
+
+def slot_program(rng, hostile: float) -> str:
+    toks: T.List[str] = []
+    derive(rng, 'codeblock', rng.choice([3, 5, 7, 9, 12]), toks)
+    if rng.random() < hostile:
+        # drop / duplicate / replace one token: the malformed stream
+        real = [i for i, t in enumerate(toks) if t not in (NL, BT)]
+        if real:
+            i = rng.choice(real)
+            k = rng.randrange(3)
+            if k == 0:
+                del toks[i]
+            elif k == 1:
+                toks.insert(i, toks[i])
+            else:
+                toks[i] = rng.choice(['endif', 'endforeach', 'else', 'elif', ')', ']', '}', ',', ':', 'not', '\n'])
+    return render_slots(rng, toks, hostile)
+
+
+# ------------------------------------------------------------------ exhaustive nesting skeletons
+#
+# All block skeletons with at most SKEL_BLOCKS block constructs, nesting depth <= 3 and <= 3 items per body over
+# {plain statement, if, if/else, if/elif/else, foreach}; each is rendered with every trivia of SKEL_TRIVIA at every
+# boundary at once, and with every trivia at each single terminator boundary (the others default to newline).
+
+SKEL_TRIVIA = ['\n', ' ', '\t', '  ', ' \\\n', ' # c\n', ' \\ # c\n  ', '\n\n  ']
+SKEL_BLOCKS = 3
+
+
+def _bodies(blocks: int, depth: int) -> T.Iterator[T.Tuple[T.Tuple, int]]:
+    """(body, blocks used); a body is a tuple of items; an item is 'P' or (kind, body, ...)"""
+    def items(budget: int, n: int) -> T.Iterator[T.Tuple[T.Tuple, int]]:
+        if n == 0:
+            yield (), 0
+            return
+        for first, used in item(budget):
+            for rest, used2 in items(budget - used, n - 1):
+                yield (first,) + rest, used + used2
+
+    def item(budget: int) -> T.Iterator[T.Tuple[T.Any, int]]:
+        yield 'P', 0
+        if budget >= 1 and depth >= 1:
+            for kind, nb in (('if', 1), ('ifelse', 2), ('ifelifelse', 3), ('foreach', 1)):
+                for bs, used in _body_tuple(budget - 1, depth - 1, nb):
+                    yield (kind,) + bs, used + 1
+
+    for n in range(0, 4):
+        yield from items(blocks, n)
+
+
+def _body_tuple(blocks: int, depth: int, nb: int) -> T.Iterator[T.Tuple[T.Tuple, int]]:
+    if nb == 0:
+        yield (), 0
+        return
+    for b, used in _bodies(blocks, depth):
+        for rest, used2 in _body_tuple(blocks - used, depth, nb - 1):
+            yield (b,) + rest, used + used2
+
+
+def skeleton_tokens(body, out: T.List[str]) -> None:
+    """tokens of a body; '<T>' marks a terminator boundary, NL a required newline"""
+    for i, it in enumerate(body):
+        if i:
+            out.append(NL)
+        if it == 'P':
+            out.append('x = 1')
+            continue
+        kind, bodies = it[0], it[1:]
+        if kind == 'foreach':
+            out += ['foreach i : l', NL]
+            skeleton_tokens(bodies[0], out)
+            out += ['<T>', 'endforeach']
+        else:
+            out += ['if a', NL]
+            skeleton_tokens(bodies[0], out)
+            if kind == 'ifelifelse':
+                out += ['<T>', 'elif b', NL]
+                skeleton_tokens(bodies[1], out)
+            if kind in ('ifelse', 'ifelifelse'):
+                out += ['<T>', 'else', NL]
+                skeleton_tokens(bodies[-1], out)
+            out += ['<T>', 'endif']
+
+
+def render_skeleton(toks: T.List[str], trivia_at: T.Dict[int, str], default: str) -> str:
+    out = ''
+    k = 0
+    for t in toks:
+        if t == NL:
+            out += '\n'
+        elif t == '<T>':
+            tr = trivia_at.get(k, default)
+            k += 1
+            if out.endswith('\n') and tr == '\n':
+                tr = ''            # empty body: the newline after the header is the boundary
+            if tr == '' and out and not out.endswith('\n'):
+                tr = ' '
+            out += tr
+        else:
+            out += t
+    return out
+
+
+def skeleton_texts(max_blocks: int = SKEL_BLOCKS, depth: int = 3) -> T.Iterator[str]:
+    seen = set()
+    for body, _used in _bodies(max_blocks, depth):
+        toks: T.List[str] = []
+        skeleton_tokens(body, toks)
+        nb = toks.count('<T>')
+        if nb == 0:
+            continue
+        variants = [render_skeleton(toks, {}, tr) for tr in SKEL_TRIVIA]
+        for k in range(nb):
+            for tr in SKEL_TRIVIA[1:]:
+                variants.append(render_skeleton(toks, {k: tr}, '\n'))
+        for v in variants:
+            for tail in ('\n', ''):
+                txt = v + tail
+                if txt not in seen:
+                    seen.add(txt)
+                    yield txt
+
+
+# ------------------------------------------------------------------ state coverage (which family exercises what)
+
+TRACED = ('codeblock', 'line', 'ifblock', 'elseifblock', 'elseblock', 'foreachblock', 'statement', 'e4', 'e8', 'e9',
+          'args', 'key_values', 'method_call', 'index_call')
+
+
+def make_tracer(mparser):
+    """a Parser subclass (harness side only) recording which stateful fields are non-default when a
+    production returns"""
+    hits: T.Set[str] = set()
+
+    def wrap(name):
+        orig = getattr(mparser.Parser, name)
+
+        def f(self, *a, **k):
+            r = orig(self, *a, **k)
+            if self.current_ws:
+                hits.add('current_ws non-empty at exit of ' + name)
+            if getattr(self, 'in_ternary', False):
+                hits.add('in_ternary set at exit of ' + name)
+            return r
+        return f
+    TP = type('TracingParser', (mparser.Parser,), {n: wrap(n) for n in TRACED})
+    return TP, hits
+
+
+def state_events(mods, code: str) -> T.Set[str]:
+    mparser = mods[0]
+    ev: T.Set[str] = set()
+    try:
+        par = br = cu = 0
+        for t in mparser.Lexer(code).lex('f'):
+            if t.tid == 'whitespace' and t.value == '\n':
+                ev.add('lexer: newline while par/bracket/curl count > 0 (eol -> whitespace)')
+            elif t.tid == 'whitespace' and t.value.startswith('\\'):
+                ev.add('lexer: lineno/line_start advanced by a continuation')
+            elif t.tid in ('multiline_string', 'multiline_fstring') and '\n' in t.value:
+                ev.add('lexer: lineno/line_start advanced inside a multi-line string')
+            elif t.tid in ('string', 'fstring') and '\n' in t.value:
+                ev.add('lexer: lineno/line_start advanced inside a single-quoted string')
+            par += (t.tid == 'lparen') - (t.tid == 'rparen')
+            br += (t.tid == 'lbracket') - (t.tid == 'rbracket')
+            cu += (t.tid == 'lcurl') - (t.tid == 'rcurl')
+            if par < 0 or br < 0 or cu < 0:
+                ev.add('lexer: a bracket counter below zero')
+    except Exception:
+        pass
+    TP, hits = make_tracer(mparser)
+    try:
+        TP(code, 'f').parse()
+    except Exception:
+        pass
+    return ev | hits
+
+
 # ------------------------------------------------------------------ workers
 
 def _process(codes: T.List[str], want_nontrivial: bool) -> dict:
     mods = impl()
-    res = {'n': 0, 'tags': {}, 'viol': [], 'dis': [], 'nontrivial': 0, 'samples': []}
+    res = {'n': 0, 'tags': {}, 'viol': [], 'dis': [], 'nontrivial': 0, 'samples': [], 'state': []}
+    st_ev: T.Set[str] = set()
+    for c in codes[:: max(1, len(codes) // 150)]:
+        st_ev |= state_events(mods, c)
+    res['state'] = sorted(st_ev)
     outs = [run_one(mods, c) for c in codes]
     lines = [f'parse {enc(c)}|{names_field(c)}' for c in codes]
     model: T.List[T.Optional[str]]
@@ -722,6 +1024,11 @@ def _job_exhaustive(a):
 
 def _job_codes(codes):
     return _process(codes, True)
+
+
+def _job_skeletons(a):
+    lo, hi = a
+    return _process(list(itertools.islice(skeleton_texts(), lo, hi)), True)
 
 
 def corpus_files() -> T.List[str]:
@@ -773,13 +1080,21 @@ def merge(ctx: Ctx, family: str, results: T.Iterable[dict]) -> None:
         base = len(ctx.nontrivial)
         for i in range(r['nontrivial']):
             ctx.seen_nontrivial((family, base + i))
+        cov = ctx.extra.setdefault('state_coverage', {})
+        fam = family.split('-len')[0]
+        for ev in r.get('state', []):
+            if fam not in cov.setdefault(ev, []):
+                cov[ev].append(fam)
 
 
 def run(ctx: Ctx) -> None:
     rng = ctx.rng
     ctx.rule = ('families: every meson.build/meson.options/meson_options.txt under the repo; ALL token sequences up to a '
                 'length bound over a 26-token alphabet (single-space rendering), shorter ones over a 50-token alphabet; '
-                'random token soups with trivia; grammar-directed programs with trivia and a hostile stream; mechanism-'
+                'random token soups with trivia; grammar-directed programs with trivia and a hostile stream; table-driven grammar '
+                'derivations with EVERY token boundary filled from the full trivia alphabet (newline optional wherever the parser '
+                'does not need it); ALL nesting skeletons (<=3 block constructs, depth <=3, <=3 items per body) x trivia at each '
+                'terminator boundary; mechanism-'
                 'targeted families; character-level mutations of corpus files. A case is non-trivial when the real parser '
                 'accepts a non-blank input (a tree is built, printed, and every span checked); counted per input.')
     ctx.assumptions += TRUSTED
@@ -834,6 +1149,18 @@ def run(ctx: Ctx) -> None:
         progs.append(g.program())
     for ch in chunks(progs, 1500):
         jobs.append(('grammar', _job_codes, ch))
+    missing = grammar_table_check(impl()[0])
+    if missing:
+        ctx.obligation_failed('grammar-table', 'parser productions without an entry in the generator grammar: ' + ', '.join(missing))
+    slotp = []
+    for i in range(ctx.scale(14000, 200000)):
+        slotp.append(slot_program(rng, 0.0 if i % 3 else 0.35))
+    for ch in chunks(slotp, 1500):
+        jobs.append(('grammar-slots', _job_codes, ch))
+    nskel = sum(1 for _ in skeleton_texts())
+    ctx.tag('skeleton-texts', nskel)
+    for lo in range(0, nskel, 3000):
+        jobs.append(('nesting-skeletons', _job_skeletons, (lo, lo + 3000)))
     targ = [targeted(rng) for _ in range(ctx.scale(12000, 150000))]
     for ch in chunks(targ, 3000):
         jobs.append(('targeted', _job_codes, ch))
@@ -849,7 +1176,7 @@ def run(ctx: Ctx) -> None:
         asyncs = [(fam, pool.apply_async(fn, (arg,))) for fam, fn, arg in jobs]
         for fam, a in asyncs:
             merge(ctx, fam, [a.get(timeout=3000)])
-    for c in (KNOWN_WITNESSES[:3] + progs[:3] + soups[:2]):
+    for c in (KNOWN_WITNESSES[:2] + progs[:2] + slotp[:3] + soups[:1]):
         ctx.sample({'input': c})
 
 
